@@ -414,6 +414,42 @@ pub fn run(args: &Args) {
             run.count("pcclose_runs");
         }
     }
+    // … and on a live association: two real PeerConnections connected over loopback ICE / DTLS (the shared C10 pair),
+    // one in-band channel open at both ends; the application closes the channel and / or the PeerConnection — the
+    // association's cleanup guard and `PeerConnection::close` both walk the channel list, each channel sees one Close
+    {
+        use crate::props::c10::pair::{Cfg, IceOpt, Knobs, Mix, Mode, Pair, wait_open};
+        let rt = tokio::runtime::Builder::new_multi_thread().worker_threads(4).enable_all().build().unwrap();
+        for variant in 0..2 {
+            let res: Result<Vec<usize>, String> = rt.block_on(async {
+                let cfg = Cfg { mode: Mode::WebRtc, mix: Mix::Data, bundle: 0, mux_require: true, ice: IceOpt::Full, latching: false, legacy: false, p_offers: true };
+                let mut p = Pair::create(cfg, &Knobs::default());
+                p.negotiate().await?;
+                p.wait_connected(Duration::from_secs(10)).await?;
+                p.accept_channel(Duration::from_secs(5)).await?;
+                let (odc, adc) = (p.off.dc.clone().ok_or("no offerer channel")?, p.ans.dc.clone().ok_or("no answerer channel")?);
+                wait_open(&odc, Duration::from_secs(5)).await?;
+                if variant == 1 { if let Some(t) = p.off.pc.verif_lc_sctp_transport() { let _ = t.close_data_channel(odc.id).await; } tokio::time::sleep(Duration::from_millis(100)).await; }
+                p.off.pc.close(); p.ans.pc.close();
+                tokio::time::sleep(Duration::from_millis(300)).await;
+                let mut counts = vec![];
+                for dc in [&odc, &adc] {
+                    let mut n = 0;
+                    while let Some(Some(ev)) = futures::FutureExt::now_or_never(tokio::task::unconstrained(dc.recv())) { if matches!(ev, DataChannelEvent::Close) { n += 1; } }
+                    counts.push(n);
+                }
+                Ok(counts)
+            });
+            match res {
+                Ok(counts) => {
+                    if counts.iter().any(|n| *n > 1) { run.fail("close:more-than-once", &format!("pcclose-live {variant}"), &format!("connected PeerConnection pair closed: Close events [offerer, answerer] = {counts:?}")); }
+                    if counts.iter().any(|n| *n == 0) { run.fail("close:none-from-peer-connection-close", &format!("pcclose-live {variant}"), &format!("{counts:?}")); }
+                    run.count("pcclose_live_runs");
+                }
+                Err(e) => { run.count("pcclose_live_setup_failed"); eprintln!("pcclose-live {variant}: setup failed: {e}"); }
+            }
+        }
+    }
     let cs = cases(args, &mut rng);
     let nthreads = std::env::var("VERIF_THREADS").ok().and_then(|v| v.parse().ok()).unwrap_or(6usize);
     let next = std::sync::atomic::AtomicUsize::new(0);
